@@ -109,7 +109,14 @@ pub fn run(ctx: &mut Ctx) {
             let (ul, pl) = (rng.range(1, 16) as usize, rng.range(1, 16) as usize);
             let (u, p) = (rand_cred(&mut rng, ul), rand_cred(&mut rng, pl));
             let tape = rng.bytes(112);
-            if let Ok(l) = login(&u, &p, &u, &p, &tape) {
+            let lg = login(&u, &p, &u, &p, &tape);
+            if let Err(e) = &lg {
+                if !matches!(e, LoginFail::BadOwnKey) {
+                    // an exchange that textbook SRP6 completes was refused: one side's proof is not the specified value
+                    fails.push(format!("{{\"user\":{},\"password\":{},\"tape\":\"{}\",\"what\":\"honest exchange refused, so a proof computed by one side differs from textbook WoW SRP6\",\"error\":{}}}", jstr(&u), jstr(&p), hex(&tape), jstr(&format!("{:?}", e))));
+                }
+            }
+            if let Ok(l) = lg {
                 let sp = spec_session(ns(&u).as_ref().as_bytes(), ns(&p).as_ref().as_bytes(), &tape[0..32], &tape[32..64], &tape[64..96], GENERATOR, &NLE);
                 let ok = l.v == sp.v && l.b_pub == sp.b_pub && l.a_pub == sp.a_pub && l.ks == sp.k && l.kc == sp.k && l.m1 == sp.m1 && l.m2 == sp.m2;
                 if !ok { fails.push(format!("{{\"user\":{},\"password\":{},\"tape\":\"{}\",\"what\":\"a value leaving the public API differs from textbook WoW SRP6\",\"impl\":{{\"v\":\"{}\",\"B\":\"{}\",\"A\":\"{}\",\"K\":\"{}\",\"M1\":\"{}\",\"M2\":\"{}\"}},\"spec\":{{\"v\":\"{}\",\"B\":\"{}\",\"A\":\"{}\",\"K\":\"{}\",\"M1\":\"{}\",\"M2\":\"{}\"}}}}",
